@@ -362,4 +362,23 @@ def step (cfg : Cfg) (m : Mem) : Op → Mem
 
 def run (cfg : Cfg) (m : Mem) (ops : List Op) : Mem := ops.foldl (step cfg) m
 
+/-- `Dataset.__iter__`: `self.quads((None, None, None, None))` -/
+def dsIter (cfg : Cfg) (m : Mem) : Mem × List Quad := cgQuads cfg m (.quad TPat.all .none)
+
+/-! ### histories in which `default_union` is switched at run time
+
+  `ds.default_union = b` is a plain attribute assignment: it changes how later reads without a
+  graph (and reads naming the default graph) are resolved, and nothing in the store. -/
+
+inductive SOp
+  | op (o : Op)
+  | setUnion (b : Bool)
+  deriving Repr
+
+def stepS (s : Cfg × Mem) : SOp → Cfg × Mem
+  | .op o => (s.1, step s.1 s.2 o)
+  | .setUnion b => ({ s.1 with du := b }, s.2)
+
+def runS (s : Cfg × Mem) (ops : List SOp) : Cfg × Mem := ops.foldl stepS s
+
 end RV.C02
